@@ -23,7 +23,10 @@ Definition available_connections (limit lph nacq nhost : Z) : Z :=
   else k1 host_remain0
   else k0 host_remain0.
 
-(* connect(): `if self._available_connections(key) <= 0: await self._wait_for_available_connection` *)
+(* connect(): `available = self._available_connections(key)`; fast path `available > 0 and (conn := await self._get(..))` *)
+Definition connect_fast_path (a : Z) : bool := (0 <? a).
+
+(* connect(): `if available <= 0: await self._wait_for_available_connection` *)
 Definition connect_must_wait (a : Z) : bool := (a <=? 0).
 
 (* _wait_for_available_connection(): `if self._available_connections(key) > 0: break` *)
@@ -37,3 +40,6 @@ Definition wait_checks_closed : bool := true.
 
 (* _close_immediately(): `self._acquired_per_host.clear()` in the finally block *)
 Definition close_clears_per_host : bool := true.
+
+(* _wait_for_available_connection(): a woken waiter that finds no slot calls self._release_waiter() before queueing again *)
+Definition requeue_hands_on : bool := true.
